@@ -48,18 +48,18 @@ impl<'a> CharCounter<'a>
 		let mut line = 0;
 		let mut column = 0;
 		
-		let mut i = 0;
-		while i < index && i < self.chars.len()
+		for (i, c) in self.src.char_indices()
 		{
-			if self.chars[i] == '\n'
+			if i >= index
+				{ break; }
+			
+			if c == '\n'
 			{
 				line += 1;
 				column = 0;
 			}
 			else
 				{ column += 1; }
-			
-			i += 1;
 		}
 		
 		(line, column)
@@ -71,23 +71,25 @@ impl<'a> CharCounter<'a>
 		line: usize)
 		-> (usize, usize)
 	{
+		let bytes = self.src.as_bytes();
+
 		let mut line_count = 0;
 		let mut line_begin = 0;
 		
-		while line_count < line && line_begin < self.chars.len()
+		while line_count < line && line_begin < bytes.len()
 		{
 			line_begin += 1;
 			
-			if self.chars[line_begin - 1] == '\n'
+			if bytes[line_begin - 1] == b'\n'
 				{ line_count += 1; }
 		}
 		
 		let mut line_end = line_begin;
-		while line_end < self.chars.len()
+		while line_end < bytes.len()
 		{
 			line_end += 1;
 			
-			if self.chars[line_end - 1] == '\n'
+			if bytes[line_end - 1] == b'\n'
 				{ break; }
 		}
 		
